@@ -396,6 +396,21 @@ pub trait Entry {
 #[derive(Clone, Debug)]
 pub struct TreeEntry {
     entry: DirEntry,
+    /// The number of components from the end of the root path of the walk that belong to the
+    /// relative path segment of the entry rather than its root path segment.
+    ///
+    /// This is zero when walking a path, but may be non-zero when walking a pattern with an
+    /// invariant prefix. Entries that are not matched by such a pattern are exposed to
+    /// combinators as `TreeEntry`s and must describe the same root and relative path segments as
+    /// entries that are matched.
+    pivot: usize,
+}
+
+impl TreeEntry {
+    /// Gets the depth of the entry from the root path of the walk (ignoring any pivot).
+    pub(crate) fn tree_depth(&self) -> usize {
+        self.entry.depth()
+    }
 }
 
 impl Entry for TreeEntry {
@@ -420,7 +435,10 @@ impl Entry for TreeEntry {
     }
 
     fn depth(&self) -> usize {
-        self.entry.depth()
+        self.entry
+            .depth()
+            .checked_add(self.pivot)
+            .expect("overflow determining depth")
     }
 }
 
@@ -448,6 +466,7 @@ impl Entry for TreeEntry {
 #[derive(Debug)]
 pub struct WalkTree {
     is_dir: bool,
+    pivot: usize,
     input: walkdir::IntoIter,
 }
 
@@ -478,6 +497,7 @@ impl WalkTree {
         };
         WalkTree {
             is_dir: false,
+            pivot,
             input: builder.into_iter(),
         }
     }
@@ -508,7 +528,13 @@ impl Iterator for WalkTree {
     fn next(&mut self) -> Option<Self::Item> {
         let (is_dir, next) = match self.input.next() {
             Some(result) => match result {
-                Ok(entry) => (entry.file_type().is_dir(), Some(Ok(TreeEntry { entry }))),
+                Ok(entry) => (
+                    entry.file_type().is_dir(),
+                    Some(Ok(TreeEntry {
+                        entry,
+                        pivot: self.pivot,
+                    })),
+                ),
                 Err(error) => (false, Some(Err(error.into()))),
             },
             _ => (false, None),
